@@ -288,6 +288,84 @@ def run_history(args):
     return bad, nsw, nchk, None
 
 
+def aw_scenario(args):
+    """autowrite: several buffers are left modified (with e!), then :se aw and :q / :x / :wq: every buffer is written to ITS OWN file with ITS OWN text"""
+    vi, idx = args
+    R = rng('c20', 'aw', idx)
+    nf = R.choice([2, 3, 5, 16])
+    files = {('f%d' % i): b'f%d line 1\nf%d line 2\n' % (i, i) for i in range(1, nf + 1)}
+    want = dict(files)
+    order = list(range(2, nf + 1))
+    R.shuffle(order)
+    script = b''
+    for i in [1] + order:
+        if i != 1:
+            script += b'e! f%d\n' % i
+        if R.random() < 0.7:
+            tag = b'%c%d' % (65 + i % 26, i)
+            script += b'1s/^/%s /\n' % tag
+            want['f%d' % i] = tag + b' ' + files['f%d' % i]
+    cmd = R.choice([b'q', b'q', b'x', b'wq'])
+    script += b'se aw\n' + cmd + b'\nec ' + S(1) + b'\n'
+    r, d = common.run_ex(vi, script, files=dict(files), timeout=60)
+    got = {k: common.readf(d, k) for k in files}
+    common.rmcase(d)
+    wit = {'index': idx, 'script': script}
+    if r.timed_out or common.san_report(r):
+        return ('inconclusive', None, wit)
+    if S(1) in r.out:
+        return ('aw:quit-refused', 'autowrite on, %d buffers: :%s did not leave the editor' % (nf, cmd.decode()), wit)
+    for k in sorted(files):
+        if got[k] != want[k]:
+            return ('aw:wrong-text-written', 'autowrite on, %d buffers, :%s: file %s holds %r, its buffer held %r' % (nf, cmd.decode(), k, common.show(got[k] or b'', 60), common.show(want[k], 60)), wit)
+    return ('ok', None, wit)
+
+
+def split_scenario(args):
+    """vi, two windows (^Ws) on two different buffers: each window keeps its own cursor line while the other one is used"""
+    vi, idx = args
+    R = rng('c20', 'split', idx)
+    nl = R.randint(6, 30)
+    A = [b'a%d' % i for i in range(1, nl + 1)]
+    B = [b'b%d' % i for i in range(1, nl + 1)]
+    n1, n2 = R.randint(1, nl), R.randint(1, nl)
+    keys = b'%dG\x17s:e fb\n%dG' % (n1, n2)
+    win = [{'buf': 'b', 'row': n2}, {'buf': 'a', 'row': n1}]
+    act = 0
+    marks = {'a': {}, 'b': {}}
+    mc = iter('ABCDEFGHIJKLMNOPQRSTUVWXYZ0123456789' * 3)
+    for _ in range(R.randint(3, 14)):
+        x = R.random()
+        if x < 0.35:
+            keys += R.choice([b'\x17j', b'\x17k'])
+            act = 1 - act
+        elif x < 0.7:
+            k = R.randint(1, nl)
+            keys += b'%dG' % k
+            win[act]['row'] = k
+        else:
+            c = next(mc)
+            keys += b'0r' + c.encode()
+            marks[win[act]['buf']][win[act]['row']] = c
+    keys += b':w\n\x17j:w\n'
+    r, d = common.run_vi(vi, keys, files={'fa': b'\n'.join(A) + b'\n', 'fb': b'\n'.join(B) + b'\n'}, args=['fa'], timeout=60)
+    got = {'a': common.readf(d, 'fa'), 'b': common.readf(d, 'fb')}
+    common.rmcase(d)
+    wit = {'index': idx, 'keys': keys}
+    if r.timed_out or common.san_report(r) or got['a'] is None or got['b'] is None:
+        return ('inconclusive', None, wit)
+    for name, src in (('a', A), ('b', B)):
+        exp = list(src)
+        for row, c in marks[name].items():
+            exp[row - 1] = c.encode() + exp[row - 1][1:]
+        if got[name] != b'\n'.join(exp) + b'\n':
+            gl = got[name].split(b'\n')
+            diff = [i + 1 for i in range(min(len(gl), len(exp))) if gl[i] != exp[i]]
+            return ('split:line-changed-across-switch', 'two windows on two buffers, keys %s: buffer f%s was edited on line(s) %s, expected marks on %s' % (
+                common.show(keys, 120), name, diff[:6], sorted(marks[name])), wit)
+    return ('ok' if marks['a'] or marks['b'] else 'ok-trivial', None, wit)
+
+
 def run(tier, V):
     vi = build('asan')
     n = 1200 if tier == 'quick' else 15000
@@ -303,9 +381,21 @@ def run(tier, V):
             cuts[st.split(' at ')[0]] = cuts.get(st.split(' at ')[0], 0) + 1
         for key, what, wit in bad:
             V.violation(key, what, wit)
-    cov = {'evaluations': nchk, 'distinct_nontrivial': nsw, 'histories': n, 'observations': nchk, 'switches_checked': nsw, 'cuts': cuts,
+    nsc = 150 if tier == 'quick' else 2500
+    scok = 0
+    for fn in (aw_scenario, split_scenario):
+        for key, what, wit in pmap(fn, [(vi, base + i) for i in range(nsc)]):
+            if key == 'inconclusive':
+                V.inconclusive += 1
+            elif key == 'ok':
+                scok += 1
+            elif key != 'ok-trivial':
+                V.violation(key, what, wit)
+    nchk += 2 * nsc
+    nsw += scok
+    cov = {'autowrite_and_split_window_scenarios': 2 * nsc, 'evaluations': nchk, 'distinct_nontrivial': nsw, 'histories': n, 'observations': nchk, 'switches_checked': nsw, 'cuts': cuts,
            'rule': ('%d histories of 10-50 ops over 2,3,5,8 or 16 files: open (:e), switch (:e path, :e!, :e #, :b N, :b +/-, :b %%/#/^), edit, undo, redo, write, delete-buffer (:b !), renumber (:b ~), '
-                    'change of a file on disk behind the editor, final :q.  after EVERY op: buffer list (ids, MRU order, flags), current line and a dump of the current buffer are observed and compared with the '
+                    'change of a file on disk behind the editor, final :q; + autowrite scenarios (several modified buffers, :se aw, :q/:x/:wq: every file gets the text of its own buffer) + vi scenarios with two windows on two buffers (each keeps its own cursor line).  after EVERY op: buffer list (ids, MRU order, flags), current line and a dump of the current buffer are observed and compared with the '
                     'model.  non-trivial = an observation right after a successful switch (text, line and flags of the reached buffer compared with how it was left).' % n),
            'samples': [{'ops': [c.decode() for _, c in gen_history(rng('c20', base), 3, 12) if c]}]}
     assumptions = ['edits used are prefix insertions / appended lines with unique letters, so that equal texts mean equal history positions',
